@@ -29,7 +29,7 @@ EXPLANATION = (
     "sys.dont_write_bytecode as they were; ancillary values (symbolic reals / "
     "NaN) seed exactly the parameters whose key they match.")
 ASSUMPTIONS = [
-    "importlib.import_module is a nondeterministic stub; sys is a stand-in object with a path list and dont_write_bytecode flag",
+    "the import machinery is a model over a small file system: import_module follows Python's rules (sys.modules cache, then sys.path in order), spec_from_file_location/module_from_spec/exec_module load the given file; file contents are module objects or raise; sys is a stand-in object with a path list, a module cache and the dont_write_bytecode flag",
     "model_func bodies are irrelevant here (C02/C13)",
     "parameter lists of length 3; attribute values concrete, presence symbolic",
 ]
@@ -40,7 +40,8 @@ REQUIRED = ["get_parameter_defaults", "model_doc", "model_key", "model_name", "p
             "parameter_names", "parameter_units", "valid_axes_x", "valid_axes_y"]
 ANC = ["parameter_anc_keys", "parameter_anc_names", "parameter_anc_units"]
 OPTIONAL = ["compute_ancillaries", "model", "residual"]
-LIST_MUTANTS = ["ok", "names-short", "units-long", "names-duplicate", "defaults-out-of-order", "keys-renamed"]
+LIST_MUTANTS = ["ok", "names-short", "units-long", "names-duplicate", "defaults-out-of-order", "keys-renamed",
+                "defaults-short", "defaults-long"]
 
 
 def bounds(tier):
@@ -55,13 +56,17 @@ def tasks(tier):
            "max_paths": 20000, "witnesses": ["accepted", "rejected"]}]
     for m in LIST_MUTANTS:
         ts.append({"name": f"lists:{m}", "fn": "t_lists", "args": {"mutant": m}})
-    for hist in itertools.product(["regA", "regB", "deregA", "deregB", "regBad"], repeat=3 if tier == "thorough" else 2):
+    for hist in itertools.product(["regA", "regB", "deregA", "deregB", "regBad", "regBadA", "regBadShipped"],
+                                  repeat=3 if tier == "thorough" else 2):
         ts.append({"name": "hist:" + ">".join(hist), "fn": "t_history", "args": {"hist": list(hist)}})
     for outcome in ("module", "ModuleNotFoundError", "ValueError", "bad-module"):
         for path_state in ("absent", "present-first", "present-last"):
             for reg in (False, True):
                 ts.append({"name": f"load:{outcome}:{path_state}:register={reg}", "fn": "t_load",
                            "args": {"outcome": outcome, "path_state": path_state, "register": reg}})
+    for sc in ("same-name-in-two-directories", "reload-after-edit", "name-shadowed-by-an-importable-module",
+               "name-cached-in-sys.modules"):
+        ts.append({"name": f"load-files:{sc}", "fn": "t_load_files", "args": {"scenario": sc}, "witnesses": ["load"]})
     for pat in ("value", "nan", "missing-key"):
         ts.append({"name": f"ancillary:{pat}", "fn": "t_anc", "args": {"pattern": pat}})
     return ts
@@ -103,6 +108,10 @@ def _attrs(key="user_a", lists="ok", with_anc=True):
         order = ["E", "contact_point", "baseline"]
         if lists == "defaults-out-of-order":
             order = ["contact_point", "E", "baseline"]
+        elif lists == "defaults-short":
+            order = ["E", "contact_point"]
+        elif lists == "defaults-long":
+            order = ["E", "contact_point", "baseline", "extra"]
         for nm in order:
             P.add(nm, value=1, min=0 if nm == "E" else -symlmfit.inf)
         return P
@@ -217,19 +226,25 @@ def t_history(hist):
     w, nm, cmod, logic = _world()
     base = set(nm.models_available)
     mods = {"A": SymModule(_attrs("user_a"), {}), "B": SymModule(_attrs("user_b", with_anc=False), {}),
-            "Bad": SymModule(_attrs("user_bad", lists="names-short"), {})}
+            "Bad": SymModule(_attrs("user_bad", lists="names-short"), {}),
+            # faulty modules that carry the key of a model that may be registered
+            # (an edited copy of a user model / of a shipped model)
+            "BadA": SymModule(_attrs("user_a", lists="names-short"), {}),
+            "BadShipped": SymModule(_attrs("hertz_para", lists="units-long"), {})}
     objs = {}
     expect = set()
+    base_objs = dict(nm.models_available)
     for op in hist:
         core.count("transitions")
         if op.startswith("reg"):
             k = op[3:]
             try:
-                objs[k] = nm.register_model(mods[k])
+                md = nm.register_model(mods[k])
+                objs[k] = md
                 expect.add(mods[k].model_key)
-                prove(f"{op}:accepted", k != "Bad")
+                prove(f"{op}:accepted", not k.startswith("Bad"))
             except cmod.ModelError:
-                prove(f"{op}:rejected", k == "Bad")
+                prove(f"{op}:rejected", k.startswith("Bad"))
         else:
             k = op[5:]
             try:
@@ -239,7 +254,73 @@ def t_history(hist):
             except KeyError:
                 prove(f"{op}:was-not-registered", mods[k].model_key not in expect)
         prove(f"registry-tracks-set-model after {op}", set(nm.models_available) == base | expect)
+        prove(f"shipped-models-untouched after {op}",
+              all(nm.models_available.get(key) is obj for key, obj in base_objs.items()))
+        prove(f"registered-objects-kept after {op}",
+              all(nm.models_available.get(mods[k].model_key) is objs[k] for k in objs
+                  if mods[k].model_key in expect))
     return {"history": hist, "final": sorted(expect)}
+
+
+class _Proxy:
+    """Module object created by importlib.util.module_from_spec: empty until executed."""
+    def __init__(self, spec):
+        object.__setattr__(self, "_spec", spec)
+        object.__setattr__(self, "_target", None)
+
+    def __getattr__(self, name):
+        t = object.__getattribute__(self, "_target")
+        if t is None:
+            raise AttributeError(name)
+        return getattr(t, name)
+
+    def __setattr__(self, name, value):
+        setattr(object.__getattribute__(self, "_target"), name, value)
+
+
+def fake_importlib(fake_sys, files, seen):
+    """Model of the interpreter's import machinery over a file system
+    `files`: path -> zero-argument function that executes the file's code and
+    returns the module contents (or raises).  import_module follows Python's
+    rules (sys.modules cache first, then the sys.path entries in order);
+    spec_from_file_location/module_from_spec/exec_module load one given file
+    and do not touch the cache."""
+    if not hasattr(fake_sys, "modules"):
+        fake_sys.modules = {}
+
+    def import_module(name):
+        seen["path_during_import"] = list(fake_sys.path)
+        seen["name"] = name
+        if name in fake_sys.modules:
+            return fake_sys.modules[name]
+        for d in fake_sys.path:
+            f = f"{d}/{name}.py"
+            if f in files:
+                m = files[f]()
+                fake_sys.modules[name] = m
+                return m
+        raise ModuleNotFoundError(name)
+
+    class _Loader:
+        def __init__(self, origin):
+            self.origin = origin
+
+        def exec_module(self, module):
+            seen["path_during_import"] = list(fake_sys.path)
+            if self.origin not in files:
+                raise FileNotFoundError(self.origin)
+            object.__setattr__(module, "_target", files[self.origin]())
+
+    def spec_from_file_location(name, location=None, **k):
+        seen["name"] = name
+        loc = str(location)
+        if not loc.endswith(".py"):
+            return None
+        return types.SimpleNamespace(name=name, origin=loc, loader=_Loader(loc))
+
+    util = types.SimpleNamespace(spec_from_file_location=spec_from_file_location,
+                                 module_from_spec=lambda spec: _Proxy(spec))
+    return types.SimpleNamespace(import_module=import_module, util=util)
 
 
 def t_load(outcome, path_state, register):
@@ -253,17 +334,14 @@ def t_load(outcome, path_state, register):
     dwb0 = fake_sys.dont_write_bytecode
     seen = {}
 
-    def import_module(name):
-        seen["path_during_import"] = list(fake_sys.path)
-        seen["name"] = name
+    def content():
         if outcome == "module":
             return good
         if outcome == "bad-module":
             return bad
-        if outcome == "ModuleNotFoundError":
-            raise ModuleNotFoundError(name)
         raise ValueError("syntax problem in user file")
-    logic.importlib = types.SimpleNamespace(import_module=import_module)
+    files = {} if outcome == "ModuleNotFoundError" else {d + "/my_model.py": content}
+    logic.importlib = fake_importlib(fake_sys, files, seen)
     logic.sys = fake_sys
     before = dict(nm.models_available)
     check_assumptions()
@@ -290,6 +368,49 @@ def t_load(outcome, path_state, register):
         prove("registry-unchanged", dict(nm.models_available) == before)
     witness("load")
     return {"outcome": outcome, "error": repr(err)[:120]}
+
+
+def t_load_files(scenario):
+    """A model loaded from a file is that file's code: whatever else is
+    importable or cached under the same module name."""
+    w, nm, cmod, logic = _world()
+    A = lambda: SymModule(_attrs("model_a"), {})
+    B = lambda: SymModule(_attrs("model_b"), {})
+    other = ["/a", "/b"]
+    fake_sys = types.SimpleNamespace(path=list(other), dont_write_bytecode=boolean("dwb"), modules={})
+    seen = {}
+    files = {}
+    logic.importlib = fake_importlib(fake_sys, files, seen)
+    logic.sys = fake_sys
+    check_assumptions()
+    path0 = list(fake_sys.path)
+    if scenario == "same-name-in-two-directories":
+        files["/models/one/my_model.py"] = A
+        files["/models/two/my_model.py"] = B
+        m1 = logic.load_model_from_file("/models/one/my_model.py", register=False)
+        m2 = logic.load_model_from_file("/models/two/my_model.py", register=False)
+        prove("first-file-gives-its-model", m1.model_key == "model_a")
+        prove("second-file-gives-its-own-model", m2.model_key == "model_b", info={"got": m2.model_key})
+    elif scenario == "reload-after-edit":
+        files["/models/one/my_model.py"] = A
+        m1 = logic.load_model_from_file("/models/one/my_model.py", register=False)
+        files["/models/one/my_model.py"] = B        # the developer edits the file
+        m2 = logic.load_model_from_file("/models/one/my_model.py", register=False)
+        prove("first-file-gives-its-model", m1.model_key == "model_a")
+        prove("edited-file-gives-the-edited-model", m2.model_key == "model_b", info={"got": m2.model_key})
+    elif scenario == "name-shadowed-by-an-importable-module":
+        files["/a/my_model.py"] = A                  # something else of that name on sys.path
+        files["/models/two/my_model.py"] = B
+        m2 = logic.load_model_from_file("/models/two/my_model.py", register=False)
+        prove("file-wins-over-importable-module-of-the-same-name", m2.model_key == "model_b", info={"got": m2.model_key})
+    else:
+        fake_sys.modules["my_model"] = A()           # a module of that name is already imported
+        files["/models/two/my_model.py"] = B
+        m2 = logic.load_model_from_file("/models/two/my_model.py", register=False)
+        prove("file-wins-over-cached-module-of-the-same-name", m2.model_key == "model_b", info={"got": m2.model_key})
+    prove("sys.path-restored", fake_sys.path == path0)
+    witness("load")
+    return {"scenario": scenario}
 
 
 def t_anc(pattern):
@@ -371,6 +492,46 @@ if bad:
     print("REPRODUCED"); sys.exit(1)
 sys.exit(0)
 '''
+    if task["fn"] == "t_load_files":
+        return common.REPLAY_HEAD + f'''
+import sys as _sys, tempfile, pathlib, shutil, os, types
+import nanite.model as nm
+from nanite.model import logic
+scenario = {a["scenario"]!r}
+tdir = pathlib.Path(tempfile.mkdtemp(prefix="c18_"))
+src = pathlib.Path(nm.__file__).parent / "model_hertz_paraboloidal.py"
+def text(key): return src.read_text().replace('model_key = "hertz_para"', 'model_key = "%s"' % key)
+stem = "c18_files_model_%d" % os.getpid()
+(tdir / "one").mkdir(); (tdir / "two").mkdir(); (tdir / "a").mkdir()
+f1 = tdir / "one" / (stem + ".py"); f2 = tdir / "two" / (stem + ".py")
+path0 = list(_sys.path); bad = []
+try:
+    if scenario == "same-name-in-two-directories":
+        f1.write_text(text("model_a")); f2.write_text(text("model_b"))
+        m1 = logic.load_model_from_file(f1); m2 = logic.load_model_from_file(f2)
+        if m1.model_key != "model_a": bad.append("first file gave %r" % m1.model_key)
+        if m2.model_key != "model_b": bad.append("second file gave the model %r of the first file" % m2.model_key)
+    elif scenario == "reload-after-edit":
+        f1.write_text(text("model_a")); m1 = logic.load_model_from_file(f1)
+        f1.write_text(text("model_b")); os.utime(f1, (1, 1)); m2 = logic.load_model_from_file(f1)
+        if m2.model_key != "model_b": bad.append("edited file gave the old model %r" % m2.model_key)
+    elif scenario == "name-shadowed-by-an-importable-module":
+        (tdir / "a" / (stem + ".py")).write_text(text("model_a")); _sys.path.insert(0, str(tdir / "a")); path0 = list(_sys.path)
+        f2.write_text(text("model_b")); m2 = logic.load_model_from_file(f2)
+        if m2.model_key != "model_b": bad.append("file gave the importable module's model %r" % m2.model_key)
+    else:
+        cached = types.ModuleType(stem); exec(text("model_a"), cached.__dict__); _sys.modules[stem] = cached
+        f2.write_text(text("model_b")); m2 = logic.load_model_from_file(f2)
+        if m2.model_key != "model_b": bad.append("file gave the cached module's model %r" % m2.model_key)
+    if list(_sys.path) != path0: bad.append("sys.path changed")
+except Exception as e:
+    bad.append("raised %r" % (e,))
+shutil.rmtree(tdir, ignore_errors=True)
+print({ob["name"]!r}, bad)
+if bad:
+    print("REPRODUCED"); sys.exit(1)
+sys.exit(0)
+'''
     if task["fn"] == "t_anc":
         v = float(model.get("anc_value", 0))
         return common.REPLAY_HEAD + f'''
@@ -396,7 +557,64 @@ if bad:
 sys.exit(0)
 '''
     if task["fn"] == "t_history":
-        return None
+        return common.REPLAY_HEAD + f'''
+import types, lmfit, warnings
+import nanite.model as nm
+from nanite.model import core as cmod
+hist = {a["hist"]!r}
+def make(key, lists="ok", with_anc=True):
+    def gpd():
+        P = lmfit.Parameters()
+        for k in ["E", "contact_point", "baseline"]: P.add(k, value=1)
+        return P
+    def mf(delta, E, contact_point=0, baseline=0): return delta
+    names = ["Young's Modulus", "Contact Point", "Force Baseline"]; units = ["Pa", "m", "N"]
+    if lists == "names-short": names = names[:2]
+    if lists == "units-long": units = units + ["x"]
+    mod = types.ModuleType(key)
+    attrs = {{"get_parameter_defaults": gpd, "model_doc": "doc", "model_func": mf, "model_key": key, "model_name": "user model " + key,
+             "parameter_keys": ["E", "contact_point", "baseline"], "parameter_names": names, "parameter_units": units,
+             "valid_axes_x": ["tip position"], "valid_axes_y": ["force"]}}
+    if with_anc:
+        attrs.update({{"compute_ancillaries": lambda fd: {{"anc_a": 1}}, "parameter_anc_keys": ["anc_a"],
+                      "parameter_anc_names": ["Anc A"], "parameter_anc_units": ["N"]}})
+    for k, v in attrs.items(): setattr(mod, k, v)
+    return mod
+mods = {{"A": make("user_a"), "B": make("user_b", with_anc=False), "Bad": make("user_bad", "names-short"),
+        "BadA": make("user_a", "names-short"), "BadShipped": make("hertz_para", "units-long")}}
+base_objs = dict(nm.models_available); base = set(base_objs)
+objs = {{}}; expect = set(); bad = []
+with warnings.catch_warnings():
+    warnings.simplefilter("ignore")
+    for op in hist:
+        if op.startswith("reg"):
+            k = op[3:]
+            try:
+                objs[k] = nm.register_model(mods[k]); expect.add(mods[k].model_key)
+                if k.startswith("Bad"): bad.append(op + ": faulty module accepted")
+            except cmod.ModelError:
+                if not k.startswith("Bad"): bad.append(op + ": valid module rejected")
+        else:
+            k = op[5:]
+            try:
+                nm.deregister_model(objs[k] if k in objs else mods[k])
+                if mods[k].model_key not in expect: bad.append(op + ": deregistered a model that was not registered")
+                expect.discard(mods[k].model_key)
+            except KeyError:
+                if mods[k].model_key in expect: bad.append(op + ": registered model not found")
+        if set(nm.models_available) != base | expect:
+            bad.append("after %s: registry has %s, expected %s" % (op, sorted(set(nm.models_available) - base), sorted(expect)))
+        if not all(nm.models_available.get(key) is obj for key, obj in base_objs.items()):
+            bad.append("after %s: a shipped model was replaced or removed" % op)
+        if not all(nm.models_available.get(mods[k].model_key) is objs[k] for k in objs if mods[k].model_key in expect):
+            bad.append("after %s: a registered model object was replaced" % op)
+for key in list(nm.models_available):
+    if key not in base: nm.models_available.pop(key)
+print({ob["name"]!r}, bad)
+if bad:
+    print("REPRODUCED"); sys.exit(1)
+sys.exit(0)
+'''
     model = {k: v for k, v in model.items() if isinstance(v, bool)}
     return common.REPLAY_HEAD + f'''
 import types, lmfit, warnings
@@ -409,6 +627,8 @@ def gpd():
     P = lmfit.Parameters()
     order = ["E", "contact_point", "baseline"]
     if mutant == "defaults-out-of-order": order = ["contact_point", "E", "baseline"]
+    if mutant == "defaults-short": order = ["E", "contact_point"]
+    if mutant == "defaults-long": order = ["E", "contact_point", "baseline", "extra"]
     for k in order: P.add(k, value=1)
     return P
 def mf(delta, E, contact_point=0, baseline=0): return delta
